@@ -25,9 +25,24 @@ def run(ctx):
     runs = [(2, 1), (4, 2), (16, 4), (64, 16), (16, 16), (3, 2)] if ctx.quick() else \
            [(g, p) for g in (2, 4, 16, 64) for p in (1, 2, 4, 16)] * 6
     nlines = 60 if ctx.quick() else 90
+    stress_done = False
     for (g, gmp) in runs:
         wl = workload.mixed(rng, nlines * ctx.mult)
         lines = [w[0] for w in wl]
+        if not stress_done and g >= 16:
+            # stress phase on package-level pooled state: a few successful canonical scalar decodings and
+            # proof reads first, then a long burst of short independent transcripts / scalar decodings
+            # (every challenge and decoding goes through the shared big.Int pool)
+            stress_done = True
+            pre = ["frdec lec %s" % E.hx(rng.randrange(E.R).to_bytes(32, "little")) for _ in range(6)]
+            burst = []
+            for j in range(ctx.n(2500, 20000)):
+                if j % 7 == 0:
+                    burst.append("frdec %s %s" % (rng.choice(["le", "lec", "be"]), E.hx(rng.randrange(E.R).to_bytes(32, "little"))))
+                else:
+                    burst.append("tr %s S:73:%x C:63 C:64" % (E.hx(b"t%d" % (j % 50)), rng.randrange(E.R)))
+            lines = pre + lines[:20] + burst
+            wl = wl[:20] + [(None, "pool-stress")] * (len(pre) + len(burst))
         # the same caller-owned inputs used by several goroutines at once: calls that take vectors
         # (commit, proof creation) are repeated back to back; in concurrent mode the harness hands every
         # goroutine the SAME slice for the same vector specification (read-only sharing)
